@@ -134,12 +134,16 @@ func (e *Env) DeleteGlobal(symbol string) {
 		return
 	}
 
-	e.rwMutex.RLock()
+	// check and delete under one lock: with the check under a read lock and the delete under a later
+	// write lock, two concurrent DeleteGlobal calls could both settle on this scope
+	e.rwMutex.Lock()
 	_, ok := e.values[symbol]
-	e.rwMutex.RUnlock()
+	if ok {
+		delete(e.values, symbol)
+	}
+	e.rwMutex.Unlock()
 
 	if ok {
-		e.Delete(symbol)
 		return
 	}
 
